@@ -17,6 +17,11 @@ type vcGenS struct {
 	r    *vRand
 	emit func(string)
 	o    *vOut
+	// session id prefix ("m": judged by the spec monitor only, see Driver/CloseSys.lean) and the API-only restriction of
+	// the closing variants; ops emitted right after the closing action (the environment lets blocked writes go)
+	prefix     string
+	apiOnly    bool
+	afterClose []string
 }
 
 func (g *vcGenS) op(format string, a ...any) { g.emit("close " + fmt.Sprintf(format, a...)) }
@@ -105,11 +110,177 @@ func (g *vcGenS) base(kind int) []string {
 	return ops
 }
 
+// baseTCP: ICE-TCP through a REAL TCPMuxDefault with a receive queue of 1..2 packets.  The agent gathers a passive TCP
+// host candidate (a real tcpPacketConn behind a sharedPacketConn); a TCP client sends more framed packets than the
+// queue holds while nobody takes them out — the agent has not been started (kind 0: the candidate's receive loop
+// waits for the start), or its loop is stuck in a blocked UDP socket write (kind 1) — so the connection's reader
+// goroutine is parked handing over the next packet when Close arrives.
+func (g *vcGenS) baseTCP(kind int) []string {
+	r := g.r
+	var ops []string
+	add := func(f string, a ...any) { ops = append(ops, fmt.Sprintf(f, a...)) }
+	hmodes := []string{"none", "block", "getlocal", "restart"}
+	rbs := 1 + r.intn(2)
+	add("tcpmux A %d", rbs)
+	if r.chance(1, 3) {
+		add("hdl A %s %s", vcStreams[r.intn(3)], hmodes[r.intn(len(hmodes))])
+	}
+	k := rbs + 1 + r.intn(3)
+	switch kind {
+	case 0: // gathered, not started
+		if r.chance(1, 2) {
+			add("cand A 16 %s", []string{"n", "e", "w"}[r.intn(3)])
+		}
+		add("api A gather")
+		add("tcppeer A %d", k)
+		if r.chance(1, 2) {
+			add("tcppeer A %d", 1+r.intn(3))
+		}
+		if r.chance(1, 2) {
+			add("adv %d", []int{10, 100, 1000}[r.intn(3)])
+		}
+		add("tcpsend A 0 %d", 1+r.intn(3))
+		if r.chance(1, 2) { // started later: the receive loop drains the queue, the reader goes on
+			add("remote A 176")
+			add("%s", []string{"start A 1", "start A 0", "dial A"}[r.intn(3)])
+			add("tcpsend A 0 %d", rbs+1+r.intn(3))
+			add("adv %d", []int{10, 100, 300}[r.intn(3)])
+		}
+	default: // started, the loop is stuck in a blocked UDP write: the receive loop parks in Run, the queue fills
+		add("cand A 16 %s", []string{"w", "we", "wR", "wQ"}[r.intn(4)])
+		if r.chance(1, 2) {
+			add("api A gather")
+			add("remote A 176")
+			add("%s", []string{"start A 1", "start A 0", "dial A"}[r.intn(3)])
+		} else {
+			add("remote A 176")
+			add("%s", []string{"start A 1", "start A 0", "dial A"}[r.intn(3)])
+			add("api A gather") // parks behind the stuck task: no TCP candidate; the peer's packets open a packet conn of their own
+			add("adv 10")
+		}
+		add("adv %d", []int{100, 300, 500}[r.intn(3)])
+		add("tcppeer A %d", k)
+		add("adv %d", []int{10, 100}[r.intn(2)])
+		add("tcpsend A 0 %d", 1+r.intn(3))
+	}
+	for i := r.intn(3); i > 0; i-- {
+		switch r.intn(5) {
+		case 0:
+			add("api A %s", []string{"getlocal", "restart", "creds", "stats"}[r.intn(4)])
+		case 1:
+			add("adv %d", []int{10, 100, 1000}[r.intn(3)])
+		case 2:
+			add("tcppeer A %d", 1+r.intn(4))
+		case 3:
+			add("read A")
+		default:
+			add("release A")
+		}
+	}
+	return ops
+}
+
+// vcProfiles: the socket fault profiles = {blocked write released by deadline | by Close | by either | by the
+// environment only} x {blocked read released by deadline | by Close | by either} x {Close instant | slow | fails | slow
+// and fails}.
+func vcProfiles() []string {
+	var ps []string
+	for _, w := range []string{"", "D", "C", "X"} {
+		for _, rd := range []string{"", "Q", "R"} {
+			for _, c := range []string{"", "s", "e", "se"} {
+				ps = append(ps, w+rd+c)
+			}
+		}
+	}
+	return ps
+}
+
+// baseFault: two connected agents, A's socket has the fault profile; the socket then blocks, an application
+// Conn.Write parks in it (and, after the keepalive interval, a task of the loop too).  Returns the base sequence and
+// the position at which the write is parked (the Close is injected there, and at other positions).
+func (g *vcGenS) baseFault(profile string) ([]string, int) {
+	r := g.r
+	var ops []string
+	add := func(f string, a ...any) { ops = append(ops, fmt.Sprintf(f, a...)) }
+	mode := profile
+	if mode == "" {
+		mode = "n"
+	}
+	if r.chance(1, 4) {
+		add("hdl A %s %s", vcStreams[r.intn(3)], []string{"block", "getlocal", "restart"}[r.intn(3)])
+	}
+	add("cand A 16 %s", mode)
+	two := r.chance(1, 4)
+	if two {
+		add("cand A 32 %s", mode)
+	}
+	add("cand B 176 n")
+	add("remote A 176")
+	add("remote B 16")
+	if two {
+		add("remote B 32")
+	}
+	switch r.intn(3) {
+	case 0:
+		add("dial A")
+		add("accept B")
+	case 1:
+		add("accept A")
+		add("dial B")
+	default:
+		add("start A 1")
+		add("start B 0")
+	}
+	add("flush 8")
+	if r.chance(1, 3) {
+		add("read A")
+	}
+	add("blockw A 16 1")
+	if two {
+		add("blockw A 32 1")
+	}
+	add("write A %d", 1+r.intn(100))
+	if r.chance(1, 2) {
+		add("adv %d", []int{350, 400, 1000}[r.intn(3)]) // keepalive: a task of the loop parks in the socket too
+		if r.chance(1, 3) {
+			// a task that starts a candidate parks behind the stuck one, then the next timer task: were the loop still
+			// taking tasks while Close aborts the socket, it would start a candidate nobody aborts and write on it
+			add("cand A 48 w")
+			add("adv %d", []int{100, 400}[r.intn(2)])
+		}
+	}
+	if r.chance(1, 3) {
+		add("write A %d", 1+r.intn(100))
+	}
+	key := len(ops)
+	for i := r.intn(3); i > 0; i-- {
+		switch r.intn(4) {
+		case 0:
+			add("api A %s", []string{"getlocal", "restart", "creds", "stats", "selected"}[r.intn(5)])
+		case 1:
+			add("adv %d", []int{10, 100, 400}[r.intn(3)])
+		case 2:
+			add("write A %d", 1+r.intn(100))
+		default:
+			add("await A")
+		}
+	}
+	return ops, key
+}
+
 // inject emits the base sequence with a closing action at position pos, then post-close traffic and `end`.
 func (g *vcGenS) inject(id int, base []string, pos int, variant int) {
 	r := g.r
-	g.op("new %d", id)
+	g.op("new %s%d", g.prefix, id)
+	if g.apiOnly && (variant == 2 || variant == 5) {
+		variant = r.intn(2)
+	}
 	closing := func() {
+		defer func() {
+			for _, o := range g.afterClose {
+				g.op("%s", o)
+			}
+		}()
 		switch variant {
 		case 0:
 			g.op("close A 0")
@@ -191,7 +362,71 @@ func vcGen(o *vOut, r *vRand, thorough bool, args []string, emit func(op string)
 		g.op("%s", l)
 	}
 	g.op("end")
-	for b := 0; b < nbase && time.Since(t0) < budget; b++ {
+	for _, fixed := range vcFixedM {
+		id++
+		g.op("new m%d", id)
+		for _, l := range fixed {
+			g.op("%s", l)
+		}
+		g.op("end")
+	}
+	// ICE-TCP: real TCPMuxDefault, queue of 1..2 packets, unread backlog, Close at every (quick: every 2nd) position
+	ntcp, tstride := 8, 2
+	if thorough {
+		ntcp, tstride = 200, 1
+	}
+	for b := 0; b < ntcp && time.Since(t0) < budget && vcAlarms < 3; b++ {
+		g := &vcGenS{r: r.fork(), emit: emit, o: o, prefix: "m"}
+		base := g.baseTCP(b % 2)
+		for pos := g.r.intn(tstride); pos <= len(base) && vcAlarms < 3; pos += tstride {
+			id++
+			g.inject(id, base, pos, g.r.intn(6))
+			o.stat("close.tcp")
+		}
+	}
+	// socket fault profiles x a Conn.Write parked in the socket at the time of Close
+	profiles := vcProfiles()
+	rounds := 1
+	if thorough {
+		rounds = 6
+	}
+	for round := 0; round < rounds; round++ {
+		for _, pf := range profiles {
+			if time.Since(t0) >= budget || vcAlarms >= 3 {
+				break
+			}
+			g := &vcGenS{r: r.fork(), emit: emit, o: o}
+			// outside the model's assumptions (M2: abortIO does not block; a blocked write is aborted by Close):
+			// monitor only
+			if strings.ContainsAny(pf, "sX") {
+				g.prefix = "m"
+			}
+			if strings.Contains(pf, "X") {
+				// nothing the agent does releases the write: the environment does, a little later, and the write
+				// then fails (the deadline has passed); closers from handlers are left out (the passes below come
+				// right after the closing op)
+				g.apiOnly = true
+				g.afterClose = []string{"adv 50", "passw A 16", "passw A 32", "adv 50", "passw A 16", "passw A 32", "passw A 16", "passw A 32"}
+			}
+			base, key := g.baseFault(pf)
+			positions := []int{key}
+			if x := g.r.intn(len(base) + 1); x != key {
+				positions = append(positions, x)
+			}
+			if thorough {
+				positions = positions[:0]
+				for x := 0; x <= len(base); x++ {
+					positions = append(positions, x)
+				}
+			}
+			for _, pos := range positions {
+				id++
+				g.inject(id, base, pos, g.r.intn(6))
+				o.stat("close.fault")
+			}
+		}
+	}
+	for b := 0; b < nbase && time.Since(t0) < budget && vcAlarms < 3; b++ {
 		g := &vcGenS{r: r.fork(), emit: emit, o: o}
 		base := g.base(b % 2)
 		off := g.r.intn(stride)
@@ -201,6 +436,26 @@ func vcGen(o *vOut, r *vRand, thorough bool, args []string, emit func(op string)
 			o.stat(fmt.Sprintf("close.variant"))
 		}
 	}
+}
+
+// hand-written boundary sessions judged by the monitor only (ids "m…"): ICE-TCP with a full receive queue, slow socket Close
+var vcFixedM = [][]string{
+	// passive TCP candidate gathered, agent not started, the peer sent 4 packets into a queue of 1, Close / GracefulClose
+	{"tcpmux A 1", "api A gather", "tcppeer A 4", "adv 100", "close A 0", "api A getlocal"},
+	{"tcpmux A 2", "api A gather", "tcppeer A 5", "tcppeer A 1", "close A 1"},
+	// started, the loop stuck in a blocked UDP write, the TCP receive loop parked in Run, queue full, Close
+	{"tcpmux A 2", "cand A 16 w", "api A gather", "remote A 176", "start A 1", "adv 500", "tcppeer A 5", "adv 100", "close A 1"},
+	{"tcpmux A 1", "cand A 16 w", "api A gather", "remote A 176", "dial A", "adv 300", "tcppeer A 3", "tcpsend A 0 2", "close A 0 1"},
+	// connected; the socket's blocked write is released by the deadline, its blocked read only by Close, and Close is
+	// slow: the Conn.Write parked in the socket wakes while the receive loop is still alive; it must report an error
+	{"cand A 16 Rs", "cand B 176 n", "remote A 176", "remote B 16", "dial A", "accept B", "flush 8", "blockw A 16 1", "write A 50", "adv 400", "close A 0"},
+	{"cand A 16 DRse", "cand B 176 n", "remote A 176", "remote B 16", "start A 1", "start B 0", "flush 8", "blockw A 16 1", "write A 7", "close A 1"},
+	// a task that starts a candidate, and the next check, parked behind a task stuck in a socket whose Close is slow:
+	// none of them may run once Close has begun
+	{"cand A 16 ws", "remote A 176", "start A 1", "cand A 48 w", "adv 200", "close A 0", "adv 100"},
+	// the write is released by nothing the agent does; the environment lets it go 50 ms after the Close was called
+	{"cand A 16 X", "cand B 176 n", "remote A 176", "remote B 16", "dial A", "accept B", "flush 8", "blockw A 16 1", "write A 50", "adv 400", "close A 0",
+		"adv 50", "passw A 16", "passw A 16"},
 }
 
 // hand-written boundary sessions (the scenarios of the existing TestAgentCloseAborts* / TestCloseInConnectionStateCallback /
